@@ -98,6 +98,13 @@ func (d *PathDecoder) completionAtPos(ctx context.Context, body *hclsyntax.Body,
 
 	for _, block := range body.Blocks {
 		if block.Range().ContainsPos(pos) {
+			// block type may be (still) unknown while it is being typed
+			if block.TypeRange.ContainsPos(pos) {
+				prefixRng := block.TypeRange
+				prefixRng.End = pos
+				return d.bodySchemaCandidates(ctx, body, bodySchema, prefixRng, block.Range()), nil
+			}
+
 			blockSchema, ok := bodySchema.Blocks[block.Type]
 			if !ok {
 				return lang.ZeroCandidates(), &PositionalError{
@@ -105,12 +112,6 @@ func (d *PathDecoder) completionAtPos(ctx context.Context, body *hclsyntax.Body,
 					Pos:      pos,
 					Msg:      fmt.Sprintf("unknown block type %q", block.Type),
 				}
-			}
-
-			if block.TypeRange.ContainsPos(pos) {
-				prefixRng := block.TypeRange
-				prefixRng.End = pos
-				return d.bodySchemaCandidates(ctx, body, bodySchema, prefixRng, block.Range()), nil
 			}
 
 			for i, labelRange := range block.LabelRanges {
